@@ -11,12 +11,17 @@ Mirrors, for server scalar / server linked fields and eagerly read client fields
   `transform_and_merge_child_selection_map_into_parent_map` with the context
   `child_variable_context` = `cChildCtx`, key by key = `keyT`);
 * `variable_context.rs`: `transform_selection_field_argument_into_merged_arg_with_child_context`
-  (only a TOP-LEVEL variable is replaced: `cSubst`), `child_variable_context` (an argument that is
-  not a constant is replaced by the parent's value of the first variable in it — F12b; a missing
+  (`cSubst`: every variable of the argument, at any depth, is looked up — `substitute_variables`,
+  since the repair of F12/F12b; before it only a top-level variable was replaced and an object
+  argument holding a variable was replaced wholesale by that variable's value),
+  `child_variable_context` (`cChildCtx`: the argument with its variables substituted; a missing
   argument takes the variable's default — applied at compile time only);
-* `reader_ast.rs` + read.ts: the reader keeps the selection's arguments as written; at run time
-  `generateChildVariableMap` (`rChildEnv`) builds the child's variables and
-  `getStoreKeyChunkForArgumentValue` (`rSubst`) substitutes them — inside objects too.
+* `reader_ast.rs` + read.ts: the reader's Resolver node keeps the selection's arguments as written,
+  followed by the DEFAULT of every variable of the client field that the selection does not pass
+  (`resolverArgs`; added by the repair of the variable-default defect — before it the defaults were
+  only applied at compile time, `resolverArgsOld`); at run time `generateChildVariableMap`
+  (`rChildEnv`) builds the child's variables from them and `getStoreKeyChunkForArgumentValue`
+  (`rSubst`) substitutes them — inside objects too.
 
 Names are natural numbers; a missing / null value is `V.null` on both sides (the compiler writes
 `Null`, the runtime's key says `null`).  `mergeKeys` / `readKeys` list (path, key) pairs: the path
@@ -100,10 +105,17 @@ def VL.firstVar : VL → Option Nat
   | .cons _ v r => (V.firstVar v).orElse fun _ => VL.firstVar r
 end
 
-/-- compiler: a top-level variable is looked up, everything else is kept as written -/
+mutual
+/-- compiler (`NonConstantValue::substitute_variables`): every variable is looked up, also inside
+objects -/
 def cSubst (c : Ctx) : V → V
   | .var n => look c n
+  | .obj fs => .obj (cSubstL c fs)
   | v => v
+def cSubstL (c : Ctx) : VL → VL
+  | .nil => .nil
+  | .cons k v r => .cons k (cSubst c v) (cSubstL c r)
+end
 
 mutual
 /-- runtime: variables are substituted everywhere, also inside objects -/
@@ -135,14 +147,20 @@ def identityCtx (vars : List (Nat × Option V)) : Ctx := vars.map fun (x, _) => 
 def cChildCtx (c : Ctx) (args : Args) (defs : List (Nat × Option V)) : Ctx :=
   defs.map fun (x, dflt) =>
     match args.find? (·.1 == x) with
-    | some (_, a) =>
-      (match V.firstVar a with
-       | none => (x, a)
-       | some e => (x, look c e))
+    | some (_, a) => (x, cSubst c a)
     | none => (x, dflt.getD .null)
 
 /-- runtime: `generateChildVariableMap` -/
 def rChildEnv (e : Ctx) (args : Args) : Ctx := args.map fun (x, a) => (x, rSubst e a)
+
+/-- `arguments` of the reader's Resolver node (`user_written_variant_ast_node`): the selection's
+arguments, then `(variable, default)` for every variable of the field that has a default and is not
+passed -/
+def resolverArgs (args : Args) (defs : List (Nat × Option V)) : Args :=
+  args ++ defs.filterMap fun (x, dflt) =>
+    match dflt with
+    | some d => if (args.find? (·.1 == x)).isSome then none else some (x, d)
+    | none => none
 
 abbrev Key := Nat × Args
 
@@ -182,23 +200,35 @@ def readKeys (prog : Prog) : Nat → Ctx → List S → List (List Key × Key)
      | .client i a =>
        match prog[i]? with
        | none => []
-       | some d => readKeys prog fuel (rChildEnv e a) d.body) ++
+       | some d => readKeys prog fuel (rChildEnv e (resolverArgs a d.vars)) d.body) ++
     readKeys prog fuel e rest
 
 /-! ### the envelope in which the two agree -/
 
+mutual
+/-- every variable inside the value is declared -/
+def V.varsIn (declared : List Nat) : V → Bool
+  | .var n => declared.contains n
+  | .obj fs => VL.varsIn declared fs
+  | _ => true
+def VL.varsIn (declared : List Nat) : VL → Bool
+  | .nil => true
+  | .cons _ v r => V.varsIn declared v && VL.varsIn declared r
+end
+
+/-- what validation guarantees: every variable an argument uses (at any depth) is declared -/
 def argsSafe (declared : List Nat) (args : Args) : Bool :=
-  args.all fun (_, a) =>
-    match a with
-    | .var n => declared.contains n
-    | .obj fs => (VL.firstVar fs).isNone        -- objects are constants
-    | _ => true
+  args.all fun (_, a) => V.varsIn declared a
 
-/-- every variable of the called field is passed or has no default (then both sides say `null`) -/
-def callSafe (args : Args) (defs : List (Nat × Option V)) : Bool :=
-  defs.all fun (x, dflt) => (args.find? (·.1 == x)).isSome || dflt.isNone
+/-- default values are constants (`ConstantValue`): no variable inside -/
+def defaultsConstant (defs : List (Nat × Option V)) : Bool :=
+  defs.all fun (_, dflt) =>
+    match dflt with
+    | some d => (V.firstVar d).isNone
+    | none => true
 
-/-- `SafeArgs` for the selections of a field whose declared variables are `declared` -/
+/-- what validation guarantees for the selections of a field whose declared variables are `declared`:
+every variable an argument uses is declared; defaults are constants -/
 def selsSafe (prog : Prog) : Nat → List Nat → List S → Bool
   | 0, _, _ => true
   | _ + 1, _, [] => true
@@ -210,7 +240,7 @@ def selsSafe (prog : Prog) : Nat → List Nat → List S → Bool
        argsSafe declared a &&
        (match prog[i]? with
         | none => true
-        | some d => callSafe a d.vars && selsSafe prog fuel (d.vars.map (·.1)) d.body)) &&
+        | some d => defaultsConstant d.vars && selsSafe prog fuel (d.vars.map (·.1)) d.body)) &&
     selsSafe prog fuel declared rest
 
 end IsoVerif.Ops.Cover
